@@ -138,6 +138,10 @@ def main(what, args):
             if not os.path.exists(os.path.join(d, "patch.diff")):
                 continue            # seeded/benign: see selftest-benign
             meta = json.load(open(os.path.join(d, "meta.json")))
+            if meta.get("superseded"):
+                print(f"skip {name:12s} {meta['property']} superseded: "
+                      f"{meta['superseded'][:110]}...", flush=True)
+                continue
             status, info, wall = run_patch(os.path.join(d, "patch.diff"),
                                            meta["property"])
             ok = status == "killed"
